@@ -33,6 +33,7 @@ fn main() {
         usage();
     }
     report::install_panic_hook();
+    report::install_fatal_signal_journal();
     match args[1].as_str() {
         "selftest" => {
             report::init_output();
